@@ -87,9 +87,16 @@ def stderr_problem(comps, varies, rng_seed, with_B):
     # per-pixel noise in half of the cases: only then does the order of scaling and whitening matter
     errs = 0.37 if rng_seed % 2 == 0 else rs.uniform(0.2, 0.9, size=npix)
     B = None
+    C = None
     if with_B:
         C = fitting.Cmatrix(mask[0], mask[1], 1.2, 0.9, 20.0)
-        B = fitting.Bmatrix(C)
+        if rng_seed % 3 == 0:
+            # any whitening matrix with B.B^T = inv(C) is a valid noise model; the Cholesky one is NOT symmetric
+            B = np.linalg.inv(np.linalg.cholesky(C)).T
+        else:
+            B = fitting.Bmatrix(C)
+        if not np.allclose(B.dot(B.T).dot(C), np.eye(npix), atol=1e-6):
+            return 'Bmatrix(C).Bmatrix(C)^T is not inv(C)', None
     pars = mkpars(comps, varies)
     J = fitting.jacobian(pars, mask[0], mask[1])          # rows = free parameters
     M = np.vstack(J) / errs
@@ -100,6 +107,10 @@ def stderr_problem(comps, varies, rng_seed, with_B):
     if lj.shape != M.shape or not np.allclose(lj, M, rtol=1e-9, atol=1e-12 * float(np.max(np.abs(M)))):
         return 'lmfit_jacobian is not transpose((jacobian/errs).B)', None
     fisher = M.T.dot(M)
+    if C is not None:
+        # the Fisher matrix of the noise model itself, independent of which square root B was used
+        Me = np.vstack(J) / errs
+        fisher = Me.dot(np.linalg.inv(C)).dot(Me.T)
     try:
         sig = np.sqrt(np.diag(np.linalg.inv(fisher)))
     except np.linalg.LinAlgError:
